@@ -138,6 +138,31 @@ def s_neg_t(draw):
     return v
 
 
+def _acc(kind):
+    """well-conditioned direction (0.12 < theta < pi-0.12, off the phi seam) combined with a causal character"""
+    @st.composite
+    def f(draw):
+        v = draw(s_moderate())[:3]
+        m = _mag(v)
+        if kind == "timelike":
+            t = m * (1.0 + draw(st.floats(0.08, 4.0)))
+        elif kind == "ultra":
+            g = 10.0 ** draw(st.floats(1.0, 4.0))
+            t = m / math.sqrt(1.0 - 1.0 / (g * g))
+        elif kind == "at_rest":
+            t = m * 10.0 ** draw(st.floats(2.0, 6.0))
+        elif kind == "lightcone_in":
+            t = m * math.sqrt(1.0 + draw(_small()))
+        elif kind == "lightcone_out":
+            t = m * math.sqrt(1.0 - draw(_small()))
+        elif kind == "spacelike":
+            t = m * draw(st.floats(0.1, 0.9))
+        else:  # neg_t
+            t = -m * (1.0 + draw(st.floats(0.08, 4.0)))
+        return [*v, t]
+    return f
+
+
 STRATA = {
     "octant": s_octant,
     "moderate": s_moderate,
@@ -151,6 +176,9 @@ STRATA = {
     "at_rest": s_at_rest,
     "ultra": s_ultra,
     "neg_t": s_neg_t,
+    "acc_timelike": _acc("timelike"), "acc_ultra": _acc("ultra"), "acc_at_rest": _acc("at_rest"),
+    "acc_lightcone_in": _acc("lightcone_in"), "acc_lightcone_out": _acc("lightcone_out"), "acc_spacelike": _acc("spacelike"),
+    "acc_neg_t": _acc("neg_t"),
 }
 G1 = ("octant", "moderate")
 G2 = ("near_z_axis", "near_xy_plane", "x_or_y_small", "phi_special")
